@@ -138,19 +138,27 @@ WITNESS = [
 ]
 
 
-def check_imputer(run, st, x, model_calls, model, observed_cat, rnd, tag, replay):
+def check_imputer(run, st, x, model_calls, model, observed_cat, rnd, tag, replay, imps=None):
+    """imps: long-lived imputers {(use_storage, direct): TreeImputer} polled in 'light' mode (one subset, no storage snapshot);
+    None: fresh imputers, six subsets each, storage snapshot before / after."""
     from ixai.imputer import TreeImputer
     feats = st.feature_names
     subsets = [list(c) for r in range(len(feats) + 1) for c in itertools.combinations(feats, r)]
     rnd.shuffle(subsets)
+    light = imps is not None
     for use_storage in (False, True):
         for direct in (False, True):
-            imp = TreeImputer(model, st, direct_predict_numeric=direct, use_storage=use_storage)
-            for sub in subsets[:6]:
+            if light:
+                if (use_storage, direct) not in imps:
+                    continue
+                imp = imps[(use_storage, direct)]
+            else:
+                imp = TreeImputer(model, st, direct_predict_numeric=direct, use_storage=use_storage)
+            for sub in subsets[:(1 if light else 6)]:
                 n = rnd.choice([1, 3])
                 x0 = dict(x)
-                res_before = {f: {k: [id(d) for d in r.get_data()[0]] for k, r in st.data_reservoirs[f].items()} for f in feats}
-                names_before = {f: leaf_names(st, f)[0] for f in feats}
+                res_before = {} if light else {f: {k: [id(d) for d in r.get_data()[0]] for k, r in st.data_reservoirs[f].items()} for f in feats}
+                names_before = {} if light else {f: leaf_names(st, f)[0] for f in feats}
                 del model_calls[:]
                 try:
                     out = imp.impute(list(sub), x, n_samples=n)
@@ -159,14 +167,14 @@ def check_imputer(run, st, x, model_calls, model, observed_cat, rnd, tag, replay
                     run.violation("imputer-raises", f"{tag}: TreeImputer(use_storage={use_storage}, direct={direct}).impute({sub}) raised "
                                                     f"{type(ex).__name__}: {ex}", replay)
                     continue
-                run.ok(kind="impute-storage" if use_storage else "impute-model")
-                rp = {**replay, "subset": sub, "use_storage": use_storage, "direct_predict_numeric": direct, "x": x0}
+                run.ok(kind=("long-lived-" if light else "") + ("impute-storage" if use_storage else "impute-model"))
+                rp = {**replay, "long_lived_imputer": light, "subset": sub, "use_storage": use_storage, "direct_predict_numeric": direct, "x": x0}
                 if not isinstance(out, list) or len(out) != n or len(model_calls) != n:
                     run.violation("imputer-result-count", f"{tag}: {len(out) if hasattr(out, '__len__') else out} predictions / {len(model_calls)} evaluations for n_samples={n}", rp)
                 if x != x0:
                     run.violation("imputer-modified-instance", f"{tag}: x changed", rp)
-                res_after = {f: {k: [id(d) for d in r.get_data()[0]] for k, r in st.data_reservoirs[f].items()} for f in feats}
-                if res_after != res_before or {f: leaf_names(st, f)[0] for f in feats} != names_before:
+                res_after = {} if light else {f: {k: [id(d) for d in r.get_data()[0]] for k, r in st.data_reservoirs[f].items()} for f in feats}
+                if res_after != res_before or (not light and {f: leaf_names(st, f)[0] for f in feats} != names_before):
                     run.violation("imputer-modified-storage", f"{tag}: reservoirs or trees changed during impute", rp)
                 for xi in model_calls:
                     if set(xi.keys()) != set(x.keys()) or any(xi[f] != x[f] for f in x if f not in sub):
@@ -238,7 +246,28 @@ def main(run):
         tag0 = f"max_depth={md} grace={gp} reservoir={L} period={period} {style}" + (" [witness scenario]" if fixed_seed is not None else "")
         stop = False
         lost_events = critical = 0
+        # long-lived imputers (as an explainer holds them) polled around every update; in every other random configuration the
+        # stream also repeats rows now and then and reports whole numeric readings as Python ints
+        from ixai.imputer import TreeImputer
+        imps = {(True, False): TreeImputer(model, st, direct_predict_numeric=False, use_storage=True),
+                (True, True): TreeImputer(model, st, direct_predict_numeric=True, use_storage=True),
+                (False, j % 2 == 0): TreeImputer(model, st, direct_predict_numeric=(j % 2 == 0), use_storage=False)}
+        vary = fixed_seed is None and j % 2 == 1
+        prnd = random.Random(seed + 2)
+        prev_x = None
         for i, x in enumerate(gen_stream(rnd, steps, period, style)):
+            if vary:
+                if prev_x is not None and prnd.random() < 0.06:
+                    x = dict(prev_x)                         # a repeated row (equal values, another object)
+                elif prnd.random() < 0.1:
+                    x["n1"] = int(round(x["n1"]))            # a whole reading of a numeric feature arrives as a Python int
+                    if prnd.random() < 0.5:
+                        x["n2"] = int(round(x["n2"]))
+            prev_x = x
+            poll = i >= 12 and (i < 400 or prnd.random() < 0.15) and not stop
+            if poll:       # explain (impute around the instance) BEFORE it enters the storage ...
+                check_imputer(run, st, x, model_calls, model, observed_cat, prnd, f"{tag0} step {i} (before its update)",
+                              {"config": tag0, "seed": seed, "step": i}, imps=imps)
             seen_ids[id(x)] = (x, dict(x))
             for c in observed_cat:
                 observed_cat[c].add(x[c])
@@ -294,8 +323,14 @@ def main(run):
                     run.violation("newest-not-in-its-leaf", f"{tag}: newest observation is not in the reservoir of the leaf it is routed to "
                                                             f"for feature {f!r}", replay)
                     stop = True
+            if poll and not stop:       # ... and again right after (the same instance re-explained, or an equal copy of it)
+                check_imputer(run, st, x if prnd.random() < 0.5 else dict(x), model_calls, model, observed_cat, prnd,
+                              f"{tag} (after its update)", replay, imps=imps)
             if i >= 30 and i % (400 if not thorough else 250) == 17 and not stop:
                 xq = dict(next(gen_stream(irnd, 1, period, style)))
+                if irnd.random() < 0.4:      # the explained instance carries whole numeric readings as ints (NumPy ints now and then)
+                    xq["n1"] = irnd.choice([int, np.int64])(round(xq["n1"]))
+                    xq["n2"] = int(round(xq["n2"]))
                 check_imputer(run, st, xq, model_calls, model, observed_cat, irnd, tag, replay)
             if stop:
                 break
